@@ -554,9 +554,10 @@ class Screen(BaseScreen, RealTerminal):
             if len(row) > 1:
                 return False
             a, _cs, text = row[0]
-            # spaces with a visible attribute (e.g. a background colour) are not blank
+            # spaces with a visible attribute (e.g. a background colour) are not blank: the row must paint like
+            # the terminal's own default, which a palette entry for None may differ from
             # only spaces are blank: bytes.strip() would also drop control whitespace that is drawn as "?"
-            return not text.strip(b" ") and attr_to_escape(a) == attr_to_escape(None)
+            return not text.strip(b" ") and attr_to_escape(a) == self._attrspec_to_escape(AttrSpec("default", "default"))
 
         def attr_to_escape(a: AttrSpec | str | None) -> str:
             if a in self._pal_escape:
